@@ -19,6 +19,19 @@ CLAIMED = {
          "symbolic float literal is cut to an opaque value (float range errors outside). Outside: long inputs, include "
          "resolution, compile passes, time/memory proportionality.",
          "DESIGN.md §4 C08"),
+ "C09": ("String values of up to 3 (thorough 4) arbitrary bytes, source literals built from two atoms (raw byte, simple/octal/hex "
+         "escape), src commands, @include paths and integers below 10^3 (10^4) are symbolic; the real quoteString, lexer, unquote, "
+         "yacc parser and formatter run on them and the solver shows the formatted text lexes/parses back to the same value and is a "
+         "fixed point. Partial: literal, src/include and integer kernels only.",
+         "Trusted: go/ssa, symgo, regex VM model, z3. Outside: floats, comments, call reordering, whole-file idempotence, "
+         "include-expanded rendering, wider integers. One known finding (non-UTF-8 literal bytes) is reported as KNOWN-FINDING.",
+         "DESIGN.md §4 C09"),
+ "C16": ("StringExp values of up to 3 (4) arbitrary bytes, two-key typed maps with arbitrary 1-2 byte keys under every Go map iteration "
+         "order, booleans/null/empty collections and integers below 10^3 (10^4) are encoded by the real EncodeJSON/MarshalJSON; an "
+         "RFC 8259 string decoder in the harness is the oracle. Partial: scalar and collection encoders (call text -> JSON direction).",
+         "Trusted: go/ssa, symgo, z3, the 60-line JSON string decoder. Outside: JSON -> expression (encoding/json), floats, "
+         "BuildCallSource end to end, per-fork invocation files.",
+         "DESIGN.md §4 C16"),
  "C11": ("Map keys of up to 3 (thorough 4) arbitrary bytes, array indices < 1000 and every journal file name built from "
          "(node, fork, chunk?, 10-hex uniquifier?, prefix, state) are symbolic; the real makeKeySafe/url.PathEscape, forkString, "
          "ForkIdString, encodeJournalName, parseRunFilename (regex run by a symbolic Pike VM over Go's own compiled program), "
